@@ -828,9 +828,18 @@ func (x *Exec) loopEnter(st *State, fr *Frame, from, to *ssa.BasicBlock, ord int
 			x.havocLoc(st, l)
 		}
 	} else {
-		roots, allocs, need := x.loopWrites(fr.fn, to.Index)
+		roots, allocs, need, allocsW := x.loopWrites(fr.fn, to.Index)
 		if need != "" {
 			panic(unsupported(fmt.Sprintf("loop %d of %s needs an assigns clause: %s", ord, fkey, need)))
+		}
+		for al := range allocsW {
+			if pv, ok := fr.env[al].(Ptr); ok {
+				if pv.ArrRegion {
+					x.havocLoc(st, loc{mem: true, root: pv.Root, r: pv.R})
+				} else {
+					x.havocLoc(st, loc{root: pv.Root, r: pv.R, i: pv.I, typ: pv.Elem})
+				}
+			}
 		}
 		for _, root := range roots {
 			walkType(root, "", func(lf leaf, _ types.Type, _ string) {
@@ -927,8 +936,9 @@ func (x *Exec) loopBack(st *State, fr *Frame, from, to *ssa.BasicBlock, ord int)
 }
 
 // loopWrites: root types whose families may be written inside the loop (static approximation).
-func (x *Exec) loopWrites(fn *ssa.Function, header int) (roots []types.Type, allocs bool, need string) {
+func (x *Exec) loopWrites(fn *ssa.Function, header int) (roots []types.Type, allocs bool, need string, allocsW map[*ssa.Alloc]bool) {
 	fi := x.p.info(fn)
+	allocsW = map[*ssa.Alloc]bool{}
 	seen := map[string]bool{}
 	add := func(t types.Type) {
 		if !seen[canon(t)] {
@@ -945,6 +955,13 @@ func (x *Exec) loopWrites(fn *ssa.Function, header int) (roots []types.Type, all
 			for _, ins := range b.Instrs {
 				switch i := ins.(type) {
 				case *ssa.Store:
+					if al := addrAlloc(i.Addr); al != nil && depth == 0 {
+						if !fi.loopBlks[header][al.Block().Index] {
+							allocsW[al] = true
+						}
+						// allocated inside the loop: fresh each iteration, nothing to havoc
+						continue
+					}
 					if rt := addrRoot(i.Addr); rt != nil {
 						add(rt)
 					} else {
@@ -1061,6 +1078,21 @@ func addrRoot(v ssa.Value) types.Type {
 func addrRootArr(v ssa.Value) types.Type {
 	if fa, ok := v.(*ssa.FieldAddr); ok {
 		return addrRoot(fa)
+	}
+	return nil
+}
+
+// addrAlloc: the local Alloc an address is derived from (through field/index address computations), or nil.
+func addrAlloc(v ssa.Value) *ssa.Alloc {
+	switch a := v.(type) {
+	case *ssa.Alloc:
+		return a
+	case *ssa.FieldAddr:
+		return addrAlloc(a.X)
+	case *ssa.IndexAddr:
+		if _, ok := a.X.Type().Underlying().(*types.Pointer); ok {
+			return addrAlloc(a.X)
+		}
 	}
 	return nil
 }
